@@ -83,7 +83,10 @@ func genC16One(t *rapid.T) c16Case {
 				// an upstream module may also fail before the start block (inside the back-filled part)
 			}
 			if hi < lo {
-				hi = lo
+				// no block of the requested range on which the module runs: a failure outside the range may never be
+				// executed at all, nothing to demand
+				c.FailMod = ""
+				goto transient
 			}
 			c.FailAt = rapid.Uint64Range(lo, hi).Draw(t, "failat")
 			// half of the time transient faults hit the first jobs as well: the job that fails deterministically
@@ -101,6 +104,7 @@ func genC16One(t *rapid.T) c16Case {
 			return c
 		}
 	}
+transient:
 	n := rapid.IntRange(1, 3).Draw(t, "nfaults")
 	for i := 0; i < n; i++ {
 		c.Faults = append(c.Faults, world.Fault{
